@@ -402,3 +402,71 @@ package pongo2
 //@   at TemplateWriter.WriteString requires {C14} @only-after-body-succeeded lastresult("(*NodeWrapper).Execute") == nil
 //@ func (*tagIfchangedNode).Execute
 //@   at TemplateWriter.Write requires {C14} @only-after-body-succeeded lastresult("(*NodeWrapper).Execute") == nil
+
+// ---- safety sweep (C01): invariants and documented panics ----
+// API functions documented to panic
+//@ func Must
+//@   flag maypanic
+//@ func MustApplyFilter
+//@   flag maypanic
+//@ func NewSet
+//@   flag maypanic
+//@ func MustNewLocalFileSystemLoader
+//@   flag maypanic
+//@ func MustNewHttpFileSystemLoader
+//@   flag maypanic
+// os.Getwd failing (working directory removed) is an environment fault of the default loader
+//@ func (*LocalFilesystemLoader).Abs
+//@   flag maypanic
+//@ type tagCycleNode
+//@   invariant {C01} len(self.args) > 0
+//@ type ExecutionContext
+//@   invariant {C01} self.template != nil
+//@ type Parser
+//@   invariant {C01} self.template != nil
+//@ type Template
+//@   invariant {C01} self.size >= 0 && self.size <= 4611686018427387903
+//@ type tagIfNode
+//@   invariant {C01,C09} len(self.conditions) >= 1 && len(self.wrappers) >= len(self.conditions)
+//@ func (*Template).execute
+//@   ensures {C01} @error-type r0 != nil ==> typeis(r0, "*Error")
+// the lorem word and paragraph tables are split from a constant text (ASSUMED non-empty; they are never reassigned)
+//@ axiom len(tagLoremWords) > 0 && len(tagLoremParagraphs) > 0
+//@ writers {C01} G|tagLoremWords init
+//@ writers {C01} G|tagLoremParagraphs init
+//@ extern rand.Intn(n) (r0)
+//@   requires {C01} @positive n > 0
+//@   ensures 0 <= r0 && r0 < n
+//@ func newParser
+//@   flag returns-fresh
+//@   requires {C01} @template-given template != nil
+//@   ensures fresh(r0) && r0 != nil && r0.name == name && r0.tokens == tokens && r0.template == template && r0.idx == 0
+//@   ensures len(tokens) > 0 ==> r0.lastToken == tokens[len(tokens) - 1]
+//@ func newExecutionContext
+//@   requires {C01} @template-given tpl != nil
+
+// ---- Value accessors tied to reflect (C01, C08, C18) ----
+//@ spec Resolved(rv reflect.Value) reflect.Value = ite(RVValid(rv) && RVKind(rv) == 22, RVElem(rv), rv)
+//@ spec TypeKind(t reflect.Type) int
+//@ spec TypeLen(t reflect.Type) int
+//@ extern (reflect.Value).Type(v) (r0)
+//@   ensures TypeKind(r0) == RVKind(v) && (RVKind(v) == 17 ==> TypeLen(r0) == RVLen(v))
+//@ extern reflect.New(typ) (r0)
+//@   pure as RVNew
+//@   ensures RVKind(r0) == 22 && RVCanAddr(RVElem(r0)) && RVKind(RVElem(r0)) == TypeKind(typ) && (TypeKind(typ) == 17 ==> RVLen(RVElem(r0)) == TypeLen(typ))
+//@ extern (reflect.Value).Set(v, x)
+//@   requires {C01} @settable RVCanAddr(v)
+//@ func (*Value).Len
+//@   ensures {C18} @collections (RVKind(Resolved(v.val)) == 17 || RVKind(Resolved(v.val)) == 18 || RVKind(Resolved(v.val)) == 21 || RVKind(Resolved(v.val)) == 23) ==> r0 == RVLen(Resolved(v.val))
+//@   ensures {C18} @strings-count-runes RVKind(Resolved(v.val)) == 24 ==> r0 == runecount(RVString(Resolved(v.val)))
+//@ func (*Value).Slice
+//@   requires {C01,C18} @range 0 <= i && i <= j && j <= VLen(v)
+//@ func (*Value).Index
+//@   requires {C01,C18} @non-negative i >= 0
+// sort.SliceStable calls the less function with indices inside the slice (ASSUMED protocol of the library)
+//@ func (*Value).IterateOrder$1
+//@   requires 0 <= i && i < len(rs) && 0 <= j && j < len(rs)
+//@ func tagIfParser
+//@   invariant 0 {C01,C09} @one-wrapper-per-condition len(ifNode.conditions) >= 1 && len(ifNode.wrappers) + 1 >= len(ifNode.conditions)
+//@ func (*Template).newContextForExecution
+//@   ensures {C01} @error-type r2 != nil ==> typeis(r2, "*Error")
